@@ -174,6 +174,10 @@ class MoveMethod:
             raise exceptions.RefactoringError(
                 "Unknown class type for attribute <%s>" % dest_attr
             )
+        if new_name in pyclass:
+            raise exceptions.RefactoringError(
+                "Destination class already has an attribute <%s>" % new_name
+            )
         pymodule = pyclass.get_module()
         resource = pyclass.get_module().get_resource()
         start, end = sourceutils.get_body_region(pyclass)
